@@ -10,14 +10,19 @@
   that follow are delivered intact - from the first one when start and stop
   markers differ, from the second at the latest when they coincide."
 -/
-import IgrisModel.C05.Lemmas
+import IgrisModel.C05.LemmasBuf
 namespace Igris.Gstuff
 open Igris.Proto Igris.C17
 
 /-! ### memory safety -/
 
 /-- never more than capacity-1 bytes in the line, in every reachable state,
-for every alphabet (well-formed or not), stream and capacity -/
+for every alphabet (well-formed or not), stream and capacity.  (List-level model,
+`cap : Nat`.  For capacity 0 the statement says "nothing is ever stored"; since
+`fix: sline_putchar refuses when the line has no buffer` that is what the code
+does too — before it the unsigned `cap - 1` wrapped and the code stored without
+bound, see `sline_putchar_cap0_witness`.  The statement about the C object itself,
+32-bit counters and buffer indices included, is `recv_never_faults`.) -/
 theorem recv_bounds (ctx : Ctx) (cap : Nat) (bs : List Byte) :
     (feed ctx (Recv.init cap) bs).1.line.length ≤ cap - 1 ∧ (feed ctx (Recv.init cap) bs).1.cap = cap := by
   have h := feed_lineOK ctx (Recv.init cap) bs (by simp [LineOK, Recv.init])
@@ -42,6 +47,68 @@ theorem recv_write_indices (ctx : Ctx) (cap : Nat) (hcap : 1 ≤ cap) (bs : List
   intro hgrow
   simp only [LineOK, hcap', hb.2] at hn
   omega
+
+/-! ### memory safety at the level of the C line object (C04/Buf.lean) -/
+
+/-- MEMORY SAFETY, buffer level.  The receiver is given a memory block `buf` and
+told it has `cap` bytes (`init(buf, cap)`; the block may be larger — the bytes
+from index `cap` on then stand for the memory BEHIND the buffer).  For every
+alphabet, every declared capacity (0 included, 32-bit unsigned) and every
+stream: no call ever faults (no `buf[i]`, no `memmove` outside the block);
+statuses, state, CRC and line bytes are those of the list-level receiver (so
+every other theorem of this file speaks about this object); afterwards
+`cursor = len ≤ cap - 1` (the `memmove` branches of `sline_putchar` /
+`sline_backspace` are never taken); and no byte at an index ≥ `cap` was modified. -/
+theorem recv_never_faults (ctx : Ctx) (buf : List Byte) (cap : BitVec 32)
+    (hblk : cap.toNat ≤ buf.length) (bs : List Byte) :
+    ∃ r', bfeed ctx (BRecv.init buf cap) bs = some (r', (feed ctx (Recv.init cap.toNat) bs).2) ∧
+      r'.abs = (feed ctx (Recv.init cap.toNat) bs).1 ∧
+      r'.line.cursor = r'.line.len ∧ r'.line.len.toNat ≤ cap.toNat - 1 ∧ r'.line.cap = cap ∧
+      r'.line.buf.length = buf.length ∧ r'.line.buf.drop cap.toNat = buf.drop cap.toNat := by
+  have hok : SlineOK (BRecv.init buf cap).line := ⟨rfl, hblk, by simp [BRecv.init, Sline.init]⟩
+  obtain ⟨r', e1, e2, e3, e4, e5, e6⟩ := bfeed_refines ctx (BRecv.init buf cap) hok bs
+  have habs : (BRecv.init buf cap).abs = Recv.init cap.toNat := by
+    simp [BRecv.abs, BRecv.init, Sline.init, Sline.bytes, Recv.init]
+  rw [habs] at e1 e2
+  have hc : r'.line.cap = cap := e4
+  exact ⟨r', e1, e2, e3.cur, by have := e3.bound; rw [hc] at this; exact this, hc, e5, e6⟩
+
+/-- the same for `gstuff_autorecv(ctx)` used WITHOUT `setbuf` (buf = NULL, cap = 0):
+no call faults and nothing is ever stored -/
+theorem recv_nobuf_never_faults (ctx : Ctx) (bs : List Byte) :
+    ∃ r', bfeed ctx BRecv.noBuf bs = some (r', (feed ctx ⟨.s0, 0#8, [], 0⟩ bs).2) ∧
+      r'.line.len = 0 ∧ r'.line.buf = [] := by
+  have hok : SlineOK BRecv.noBuf.line := ⟨rfl, by simp [BRecv.noBuf], by simp [BRecv.noBuf]⟩
+  obtain ⟨r', e1, _, e3, e4, e5, _⟩ := bfeed_refines ctx BRecv.noBuf hok bs
+  refine ⟨r', e1, ?_, ?_⟩
+  · have := e3.bound
+    rw [e4] at this
+    exact BitVec.eq_of_toNat_eq (by simpa [BRecv.noBuf] using this)
+  · exact List.eq_nil_of_length_eq_zero (by simpa [BRecv.noBuf] using e5)
+
+/-- reading the packet (`cstr()`: terminator `buf[len] = 0`, then `size()` bytes)
+never faults after any stream when the capacity is at least 1, and returns the line;
+with it, the trace the DRIVER computes on the buffer-level model is the list-level trace -/
+theorem recv_trace_never_faults (ctx : Ctx) (buf : List Byte) (cap : BitVec 32)
+    (hcap : 1 ≤ cap.toNat) (hblk : cap.toNat ≤ buf.length) (bs : List Byte) :
+    bfeedTrace ctx (BRecv.init buf cap) bs = some (feedTrace ctx (Recv.init cap.toNat) bs) := by
+  have hok : SlineOK (BRecv.init buf cap).line := ⟨rfl, hblk, by simp [BRecv.init, Sline.init]⟩
+  have habs : (BRecv.init buf cap).abs = Recv.init cap.toNat := by
+    simp [BRecv.abs, BRecv.init, Sline.init, Sline.bytes, Recv.init]
+  rw [← habs]
+  exact bfeedTrace_eq ctx _ hok hcap bs
+
+-- non-vacuity: an 8-byte block declared as 8 bytes
+example : (1 : Nat) ≤ (8#32).toNat ∧ (8#32).toNat ≤ (List.replicate 8 (0xA5#8)).length := by decide
+
+/-- witness for the repaired defect C05-capacity-zero-unsigned-wrap: with the old
+guard `len >= cap - 1` a line without a buffer (cap 0) did not refuse — the store
+`buf[0]` faults (NULL / zero-sized block), and with memory behind the pointer it
+stored with no bound; the repaired guard `len + 1 >= cap` refuses -/
+theorem sline_putchar_cap0_witness :
+    (Sline.init [] 0).putcharOld 0x41#8 = none ∧
+    (Sline.init [0xA5#8, 0xA5#8] 0).putcharOld 0x41#8 = some (⟨[0x41#8, 0xA5#8], 0, 1, 1⟩, true) ∧
+    (Sline.init [] 0).putchar 0x41#8 = some (Sline.init [] 0, false) := by decide
 
 /-! ### soundness of every delivered packet -/
 
@@ -100,6 +167,52 @@ theorem overflow_reported (ctx : Ctx) (h : ctx.WF) (r : Recv) (hr : Idle r) (p :
     simp only [NEWPACKAGE] at hlast'
     simp only [CONTINUE, NEWPACKAGE, show ¬ ((0 : Int) = 1) by decide, if_false]
     exact if_neg hlast'
+
+/-- OVERFLOW CLAUSE IN GENERAL FORM.  From ANY receiver state when start ≠ stop
+(from any ready state — between frames or primed — when the markers coincide;
+there an in-frame receiver takes the opening marker for a stop and swallows
+the frame as garbage, which is the "second frame at the latest" of the
+resynchronisation clause), for ANY capacity (0 included) and ANY byte sequence
+between a start and a stop marker — not only frames made by the encoder —
+whose unescaping is valid up to a point `pre` where it has grown beyond
+capacity-1 bytes (whatever follows, valid or not): OVERFLOW is answered,
+NOTHING is delivered, and the receiver is ready for the next frame. -/
+theorem overflow_any_state (ctx : Ctx) (h : ctx.WF) (r : Recv)
+    (hr : ctx.start ≠ ctx.stop ∨ Ready r) (pre rest : List Byte)
+    (hnm : ∀ b ∈ pre ++ rest, b ≠ ctx.start ∧ b ≠ ctx.stop)
+    (u : List Byte) (pend : Bool) (hu : unescPartial ctx pre = some (u, pend))
+    (hbig : r.cap - 1 < u.length) :
+    OVERFLOW ∈ (feed ctx r (ctx.start :: ((pre ++ rest) ++ [ctx.stop]))).2 ∧
+    delivered ctx r (ctx.start :: ((pre ++ rest) ++ [ctx.stop])) = [] ∧
+    Ready (feed ctx r (ctx.start :: ((pre ++ rest) ++ [ctx.stop]))).1 := by
+  have hstart : (newchar ctx r ctx.start).1 = ⟨.s1, 0xFF#8, [], r.cap⟩ ∧
+      (newchar ctx r ctx.start).2 ≠ NEWPACKAGE := by
+    rcases hr with hne | hrd
+    · exact start_primes_distinct ctx h hne r
+    · exact start_primes_ready ctx r hrd
+  obtain ⟨o1, o2, o3⟩ := feed_body_overflow ctx ⟨.s1, 0xFF#8, [], r.cap⟩ pre rest (Or.inl rfl)
+    (by simp [LineOK]) hnm u pend (by simpa [unescFrom, unescPartial] using hu) hbig
+  obtain ⟨p1, p2⟩ := stop_when_idle ctx _ o2
+  generalize pre ++ rest = body at o1 o2 o3 p1 p2 ⊢
+  simp only [feed, delivered, hstart.1, hstart.2, if_false, feed_append, delivered_append, o3,
+    List.nil_append, p1]
+  exact ⟨List.mem_cons_of_mem _ (List.mem_append_left _ o1), trivial, p2⟩
+
+-- non-vacuity: 41 42 43 does not fit into a 3-byte buffer
+example : (Ctx.v1.start ≠ Ctx.v1.stop ∨ Ready (Recv.init 3)) ∧
+    (∀ b ∈ [0x41#8, 0x42#8, 0x43#8] ++ ([] : List Byte), b ≠ Ctx.v1.start ∧ b ≠ Ctx.v1.stop) ∧
+    unescPartial Ctx.v1 [0x41#8, 0x42#8, 0x43#8] = some ([0x41#8, 0x42#8, 0x43#8], false) ∧
+    (Recv.init 3).cap - 1 < [0x41#8, 0x42#8, 0x43#8].length :=
+  ⟨Or.inl (by decide), by decide, by decide, by decide⟩
+
+/-- why `Ready` is required when the markers coincide: a v0 receiver that is in
+the middle of a frame takes the opening marker of the over-long frame for a stop
+marker and swallows the frame as garbage — no OVERFLOW at all (and nothing delivered) -/
+theorem overflow_coincide_inframe_witness :
+    OVERFLOW ∉ (feed Ctx.v0 ⟨.s1, 0x12#8, [0x55#8], 3⟩
+      (Ctx.v0.start :: ([0x41#8, 0x42#8, 0x43#8] ++ [Ctx.v0.stop]))).2 ∧
+    delivered Ctx.v0 ⟨.s1, 0x12#8, [0x55#8], 3⟩
+      (Ctx.v0.start :: ([0x41#8, 0x42#8, 0x43#8] ++ [Ctx.v0.stop])) = [] := by decide +kernel
 
 /-! ### resynchronisation -/
 
@@ -160,12 +273,42 @@ theorem resync_v0_example :
 
 /-! ### legacy receiver (gstuff_autorecv_newchar_v1) -/
 
+/-- legacy receiver: never more than capacity-1 bytes in the line (every stream, every
+capacity; capacity 0: nothing is stored — see the remark at `recv_bounds`) -/
 theorem legacy_bounds (cap : Nat) (bs : List Byte) :
     (lfeed (LRecv.init cap) bs).1.line.length ≤ cap - 1 ∧ (lfeed (LRecv.init cap) bs).1.cap = cap := by
   have h := lfeed_lineOK (LRecv.init cap) bs (by simp [LLineOK, LRecv.init])
   have hc := lfeed_cap (LRecv.init cap) bs
   simp only [LLineOK, hc] at h
   exact ⟨h, hc⟩
+
+/-- legacy receiver, buffer level (`gstuff_autorecv_setbuf_v1(buf, cap)`): as
+`recv_never_faults` — no fault for any declared capacity and stream, refinement of
+the list-level legacy receiver, `cursor = len ≤ cap - 1`, memory from index `cap`
+on untouched -/
+theorem legacy_never_faults (buf : List Byte) (cap : BitVec 32) (hblk : cap.toNat ≤ buf.length)
+    (bs : List Byte) :
+    ∃ r', blfeed (BLRecv.init buf cap) bs = some (r', (lfeed (LRecv.init cap.toNat) bs).2) ∧
+      r'.abs = (lfeed (LRecv.init cap.toNat) bs).1 ∧
+      r'.line.cursor = r'.line.len ∧ r'.line.len.toNat ≤ cap.toNat - 1 ∧ r'.line.cap = cap ∧
+      r'.line.buf.length = buf.length ∧ r'.line.buf.drop cap.toNat = buf.drop cap.toNat := by
+  have hok : SlineOK (BLRecv.init buf cap).line := ⟨rfl, hblk, by simp [BLRecv.init, Sline.init]⟩
+  obtain ⟨r', e1, e2, e3, e4, e5, e6⟩ := blfeed_refines (BLRecv.init buf cap) hok bs
+  have habs : (BLRecv.init buf cap).abs = LRecv.init cap.toNat := by
+    simp [BLRecv.abs, BLRecv.init, Sline.init, Sline.bytes, LRecv.init]
+  rw [habs] at e1 e2
+  have hc : r'.line.cap = cap := e4
+  exact ⟨r', e1, e2, e3.cur, by have := e3.bound; rw [hc] at this; exact this, hc, e5, e6⟩
+
+/-- the legacy trace the driver computes (with `sline_getline` at every NEWPACKAGE) never faults -/
+theorem legacy_trace_never_faults (buf : List Byte) (cap : BitVec 32)
+    (hcap : 1 ≤ cap.toNat) (hblk : cap.toNat ≤ buf.length) (bs : List Byte) :
+    blfeedTrace (BLRecv.init buf cap) bs = some (lfeedTrace (LRecv.init cap.toNat) bs) := by
+  have hok : SlineOK (BLRecv.init buf cap).line := ⟨rfl, hblk, by simp [BLRecv.init, Sline.init]⟩
+  have habs : (BLRecv.init buf cap).abs = LRecv.init cap.toNat := by
+    simp [BLRecv.abs, BLRecv.init, Sline.init, Sline.bytes, LRecv.init]
+  rw [← habs]
+  exact blfeedTrace_eq _ hok hcap bs
 
 /-- Legacy resynchronisation (start = stop = AC): after ANY garbage prefix `g`
 and the first frame `p₁`, every following frame is delivered intact and in
@@ -193,24 +336,118 @@ theorem legacy_resync (cap : Nat) (g : List Byte) (p1 : List Byte) (ps : List (L
 /-- from a freshly initialised legacy receiver every frame is delivered, from the first -/
 theorem legacy_frames_from_init (cap : Nat) (ps : List (List Byte)) (hcap : ∀ p ∈ ps, p.length + 2 ≤ cap) :
     ldelivered (LRecv.init cap) (ps.flatMap encodeLeg) = ps :=
-  lframes_from_ready (LRecv.init cap) (Or.inl rfl) ps hcap
+  lframes_from_ready (LRecv.init cap) (Or.inl (Or.inr rfl)) ps hcap
 
-/-
-  Legacy SOUNDNESS.  Full statement (as for `recv_sound`): a packet is only
-  delivered for raw bytes that follow a start marker.  FALSE for the legacy
-  receiver, which has no hunt state — recorded finding C05-legacy-no-hunt:
--/
-/-- witness: `41 crc AC` with no start marker at all is delivered as the packet [41] -/
-theorem legacy_no_hunt_witness :
-    sinceLastStart legStart [0x41#8, strmcrc8 0xFF#8 [0x41#8]] = none ∧
-    ldelivered (LRecv.init 16) [0x41#8, strmcrc8 0xFF#8 [0x41#8], legStart] = [[0x41#8]] := by
+/-! ### legacy receiver: soundness and the overflow clause (after `fix: legacy gstuff
+receiver hunts for the start marker`; before it both clauses were false, see the two
+historical witnesses below) -/
+
+/-- LEGACY SOUNDNESS, same shape as `recv_sound`.  Whenever the legacy receiver
+answers NEWPACKAGE (to byte `c` after ANY stream `bs`, any capacity): `c` is the
+marker, a marker was received before, and the unescaping of the raw bytes since
+the LAST marker is exactly the delivered packet followed by its CRC-8 — where
+the packet is the line without its last byte (the legacy receiver leaves the
+CRC byte in the line, which therefore is never empty here). -/
+theorem legacy_sound (cap : Nat) (bs : List Byte) (c : Byte)
+    (hn : (lnewchar (lfeed (LRecv.init cap) bs).1 c).2 = NEWPACKAGE) :
+    c = legStart ∧ ∃ since, sinceLastStart legStart bs = some since ∧
+      unescape Ctx.leg since =
+        some ((lnewchar (lfeed (LRecv.init cap) bs).1 c).1.line.dropLast ++
+              [strmcrc8 0xFF#8 (lnewchar (lfeed (LRecv.init cap) bs).1 c).1.line.dropLast]) ∧
+      (lnewchar (lfeed (LRecv.init cap) bs).1 c).1.line ≠ [] := by
+  have hs := lfeed_sound (LRecv.init cap) none bs (by simp [LSound, LRecv.init])
+  exact lnewpackage_sound _ _ c hs hn
+
+-- non-vacuity: the frame of [41] is answered with NEWPACKAGE on its closing marker
+example : (lnewchar (lfeed (LRecv.init 8) [legStart, 0x41#8, strmcrc8 0xFF#8 [0x41#8]]).1 legStart).2
+    = NEWPACKAGE := by decide +kernel
+
+/-- LEGACY OVERFLOW CLAUSE, from ANY reachable state (any history `g`), any
+capacity, ANY byte sequence between two markers whose unescaping is valid up
+to a point where it has grown beyond capacity-1 bytes: OVERFLOW is answered;
+the only thing that can be delivered is a packet completed by the OPENING
+marker (begun inside `g`) — nothing of the over-long frame; and the receiver
+ends primed for the next frame. -/
+theorem legacy_overflow_reported (cap : Nat) (g pre rest : List Byte)
+    (hnm : ∀ b ∈ pre ++ rest, b ≠ legStart)
+    (u : List Byte) (pend : Bool) (hu : unescPartial Ctx.leg pre = some (u, pend))
+    (hbig : cap - 1 < u.length) :
+    OVERFLOW ∈ (lfeed (lfeed (LRecv.init cap) g).1 (legStart :: ((pre ++ rest) ++ [legStart]))).2 ∧
+    ldelivered (lfeed (LRecv.init cap) g).1 (legStart :: ((pre ++ rest) ++ [legStart])) =
+      ldelivered (lfeed (LRecv.init cap) g).1 [legStart] ∧
+    (lfeed (lfeed (LRecv.init cap) g).1 (legStart :: ((pre ++ rest) ++ [legStart]))).1 =
+      ⟨.l1, 0xFF#8, [], cap⟩ := by
+  have hgood : LGood (lfeed (LRecv.init cap) g).1 := lfeed_good _ _ (by simp [LGood, LRecv.init])
+  have hcap : (lfeed (LRecv.init cap) g).1.cap = cap := lfeed_cap _ _
+  generalize (lfeed (LRecv.init cap) g).1 = r at hgood hcap
+  obtain ⟨hm, hmc⟩ := lafter_marker r hgood
+  rw [hcap] at hm hmc
+  -- the body, fed to the primed receiver
+  obtain ⟨o1, o2, o3⟩ := lfeed_body_overflow ⟨.l1, 0xFF#8, [], cap⟩ pre rest (Or.inl rfl)
+    (by simp [LLineOK]) hnm u pend (by simpa [unescFrom, unescPartial] using hu) hbig
+  -- the receiver after the opening marker behaves like the primed one on the (non-empty) body
+  have hne : pre ++ rest ≠ [] := by
+    intro he
+    have : pre = [] := (List.append_eq_nil_iff.mp he).1
+    subst this
+    simp [unescPartial] at hu
+    rw [hu.1] at hbig; simp at hbig
+  have hsame : lfeed (lnewchar r legStart).1 (pre ++ rest) = lfeed ⟨.l1, 0xFF#8, [], cap⟩ (pre ++ rest) ∧
+      ldelivered (lnewchar r legStart).1 (pre ++ rest) = ldelivered ⟨.l1, 0xFF#8, [], cap⟩ (pre ++ rest) := by
+    rcases hm with h0 | h1
+    · obtain ⟨c, cs, hcs⟩ := List.exists_cons_of_ne_nil hne
+      generalize (lnewchar r legStart).1 = r1 at h0 hmc
+      obtain ⟨st, crc, line, cap1⟩ := r1
+      simp only at h0 hmc; subst h0; subst hmc
+      rw [hcs]; exact lfeed_l0 crc line cap1 c cs
+    · rw [h1]; exact ⟨rfl, rfl⟩
+  -- the closing marker primes the hunting receiver
+  have hclose : ∀ r3 : LRecv, r3.state = .l3 → r3.cap = cap →
+      lnewchar r3 legStart = (⟨.l1, 0xFF#8, [], cap⟩, CONTINUE) := by
+    intro r3 h3 hc3
+    obtain ⟨st, crc, line, cap3⟩ := r3
+    simp only at h3 hc3; subst h3; subst hc3
+    rw [lnewchar_l3]; simp
+  have hc3 : (lfeed ⟨.l1, 0xFF#8, [], cap⟩ (pre ++ rest)).1.cap = cap := lfeed_cap _ _
+  have hcl := hclose _ o2 hc3
+  generalize pre ++ rest = body at o1 o2 o3 hsame hcl ⊢
+  simp only [lfeed, ldelivered, lfeed_append, ldelivered_append, hsame.1, hsame.2, o3,
+    hcl, List.nil_append]
+  refine ⟨List.mem_cons_of_mem _ (List.mem_append_left _ o1), ?_, trivial⟩
+  split <;> simp [CONTINUE, NEWPACKAGE]
+
+-- non-vacuity: 41 42 43 does not fit into a 3-byte buffer
+example : (∀ b ∈ [0x41#8, 0x42#8, 0x43#8] ++ ([] : List Byte), b ≠ legStart) ∧
+    unescPartial Ctx.leg [0x41#8, 0x42#8, 0x43#8] = some ([0x41#8, 0x42#8, 0x43#8], false) ∧
+    3 - 1 < [0x41#8, 0x42#8, 0x43#8].length := by decide
+
+/-- historical witness for the overflow clause (audit finding, defect
+C05-legacy-no-hunt): the WELL-FORMED frame of the payload 01 02 EB 41 does not
+fit into a 3-byte buffer; before the repair the receiver answered OVERFLOW on EB
+and then delivered the tail `41` as a packet (statuses C C C O C C N); the
+repaired receiver skips the tail -/
+theorem legacy_overflow_tail_witness :
+    gstuffingLeg [0x01#8, 0x02#8, 0xEB#8, 0x41#8] = [0xAC#8, 0x01#8, 0x02#8, 0xEB#8, 0x41#8, 0xA0#8, 0xAC#8] ∧
+    (lfeed (LRecv.init 3) (gstuffingLeg [0x01#8, 0x02#8, 0xEB#8, 0x41#8])).2 =
+      [CONTINUE, CONTINUE, CONTINUE, OVERFLOW, CONTINUE, CONTINUE, CONTINUE] ∧
+    ldelivered (LRecv.init 3) (gstuffingLeg [0x01#8, 0x02#8, 0xEB#8, 0x41#8]) = [] := by
   decide +kernel
 
-/-- witness: after a DATA_ERROR (invalid escape) the bytes that follow are accumulated
-without waiting for a start marker: `AC AD 00 41 crc AC` delivers [41] although the
-bytes since the last start marker (`AD 00 41 crc`) do not unescape -/
+/-- historical witness (defect C05-legacy-no-hunt, repaired by `fix: legacy
+receiver hunts for the start marker`): before the repair `41 crc AC` with no
+start marker at all was delivered as the packet [41]; the repaired receiver
+skips everything in front of the first marker and delivers nothing -/
+theorem legacy_no_hunt_witness :
+    sinceLastStart legStart [0x41#8, strmcrc8 0xFF#8 [0x41#8]] = none ∧
+    ldelivered (LRecv.init 16) [0x41#8, strmcrc8 0xFF#8 [0x41#8], legStart] = [] := by
+  decide +kernel
+
+/-- historical witness: before the repair the bytes after a DATA_ERROR (invalid
+escape) were accumulated without waiting for a start marker, `AC AD 00 41 crc AC`
+delivered [41] although the bytes since the last start marker (`AD 00 41 crc`)
+do not unescape; the repaired receiver hunts for the next marker and delivers nothing -/
 theorem legacy_no_hunt_after_error_witness :
-    ldelivered (LRecv.init 16) [legStart, legStub, 0x00#8, 0x41#8, strmcrc8 0xFF#8 [0x41#8], legStart] = [[0x41#8]] ∧
+    ldelivered (LRecv.init 16) [legStart, legStub, 0x00#8, 0x41#8, strmcrc8 0xFF#8 [0x41#8], legStart] = [] ∧
     unescape ⟨legStart, legStart, legStub, legStubStart, legStubStart, legStubStub⟩
       [legStub, 0x00#8, 0x41#8, strmcrc8 0xFF#8 [0x41#8]] = none := by
   decide +kernel
